@@ -33,7 +33,10 @@ from .values import SV, BoundMethod, Closure, Native, Obj, Opaque, PyExc, Unsupp
 AFILE = "reactivex/scheduler/eventloop/asyncioscheduler.py"
 TFILE = "reactivex/scheduler/eventloop/asynciothreadsafescheduler.py"
 
-CALLERS = ["loop-thread", "other-thread-with-its-own-loop", "plain-thread"]
+#: who calls dispose: the loop's own thread; a thread that runs a loop of its own; a plain thread; a plain thread for which the
+#: scheduler's loop is the CURRENT event loop (asyncio.set_event_loop(loop) - typical: the main thread creates and installs the
+#: loop, a worker thread runs it): get_running_loop() raises there, get_event_loop() answers the scheduler's loop
+CALLERS = ["loop-thread", "other-thread-with-its-own-loop", "plain-thread", "plain-thread-with-this-loop-installed"]
 
 
 class AWorld(World):
@@ -141,8 +144,13 @@ class AioHarness:
             if w.caller_kind == "other-thread-with-its-own-loop":
                 return other
             raise PyExc(it.make_exc("RuntimeError", "no running event loop"))
+        def get_event_loop(it_, a, k):
+            # the running loop of this thread if there is one, else the loop installed for this thread (asyncio's contract)
+            if w.thread != "loop" and w.caller_kind == "plain-thread-with-this-loop-installed":
+                return loop
+            return get_running_loop(it_, a, k)
         it.externals["asyncio.get_running_loop"] = Native("get_running_loop", get_running_loop)
-        it.externals["asyncio.get_event_loop"] = Native("get_event_loop", get_running_loop)
+        it.externals["asyncio.get_event_loop"] = Native("get_event_loop", get_event_loop)
         it.externals["concurrent.futures.Future"] = Native("Future", lambda it_, a, k: Opaque("future", "future"))
         mod = "reactivex.scheduler.eventloop.asynciothreadsafescheduler" if threadsafe else "reactivex.scheduler.eventloop.asyncioscheduler"
         cls = it.module_get(mod, "AsyncIOThreadSafeScheduler" if threadsafe else "AsyncIOScheduler")
